@@ -83,6 +83,13 @@ func init() {
 			if i%2 == 1 {
 				p.managed, p.monotone, p.dupVersions = true, true, true
 			}
+			if i%4 >= 2 {
+				// batches larger than one internal transaction (tiny memtable: about a dozen
+				// entries per transaction): the batch commits and continues in a new transaction,
+				// also when the call that does not fit re-writes a pending key at another version
+				p.memSize, p.batchMax, p.wModify, p.wBatch, p.flushAfterBatch = 8<<10, 40, 0, 14, true
+				p.keys = keySetA[:3+c.Rng.Intn(3)]
+			}
 			return p
 		})
 	})
